@@ -261,3 +261,9 @@ Arguments stub_by_truth {obj}.
 Definition recls (f : nat -> nat) (nd : node) : node :=
   {| cls := f (cls nd); fields := fields nd; pre := pre nd; init := init nd; task := task nd;
      sealed := sealed nd |}.
+
+(* parameter names pairwise distinct, decidable form (hypothesis of C13_wired_like_graph /
+   C13_post_init_once_after_fields; evaluated on every generated heap by the correspondence)  *)
+Fixpoint nodup_strb (l : list str) : bool :=
+  match l with [] => true | k :: l' => negb (existsb (str_eqb k) l') && nodup_strb l' end.
+Definition fields_nodupb (h : heap) : bool := forallb (fun nd => nodup_strb (map fst (fields nd))) h.
